@@ -58,9 +58,10 @@ def analyse(p, upto='liveness'):
 
 
 def fid_of_graph(a, g):
+    """Function id of a graph; None for the graph of a lambda (its body executes as part of the evaluating statement)."""
     for fnode, gg in a.graphs.items():
         if gg is g:
-            return a.byname[fnode.name]
+            return None if isinstance(fnode, ast.Lambda) else a.byname[fnode.name]
     raise common.MachineryError('graph without function')
 
 
@@ -144,6 +145,8 @@ def cfg_claims(a):
     sid = try_ids(a)
     out = {}
     for fnode, g in a.graphs.items():
+        if isinstance(fnode, ast.Lambda):
+            continue
         fid = a.byname[fnode.name]
 
         def nid(cn):
@@ -230,6 +233,8 @@ def dataflow_claims(a):
 
     # ---- activity per CFG node -------------------------------------------------------------
     for fnode, g in a.graphs.items():
+        if isinstance(fnode, ast.Lambda):
+            continue
         fid = a.byname[fnode.name]
         for cn in g.index.values():
             nid = node_id(a, cn.ast_node)
@@ -245,6 +250,8 @@ def dataflow_claims(a):
     # ---- liveness --------------------------------------------------------------------------
     for an in a.live_analyzers:
         fid = fid_of_graph(a, an.graph)
+        if fid is None:
+            continue
         o = out[fid - 1]
         order = list(an.graph.index.values())
         pos = {cn: i + 1 for i, cn in enumerate(order)}
@@ -284,6 +291,8 @@ def dataflow_claims(a):
     def2w = {}
     for an in a.rd_analyzers:
         fid = fid_of_graph(a, an.graph)
+        if fid is None:
+            continue
         for cn, stt in an.gen_map.items():
             nid = node_id(a, cn.ast_node)
             w = -1 if nid is None else fid * 1000 + nid
@@ -292,6 +301,8 @@ def dataflow_claims(a):
                     def2w[id(d)] = w
     for an in a.rd_analyzers:
         fid = fid_of_graph(a, an.graph)
+        if fid is None:
+            continue
         o = out[fid - 1]
         order = list(an.graph.index.values())
         pos = {cn: i + 1 for i, cn in enumerate(order)}
